@@ -34,8 +34,8 @@ theorem parse_encode (a : Rec) (hwf : WF a) :
     cases ad <;> simp
   refine ⟨hs, ?_⟩
   have hm : BleAdv.matterServiceData ((encode ⟨[a, b, c, d, e, f, g, i], ad⟩).length + 1) (encode ⟨[a, b, c, d, e, f, g, i], ad⟩)
-      = some (servicePayload ⟨[a, b, c, d, e, f, g, i], ad⟩) := by
-    simp [encode, flagsRecord, serviceRecord, servicePayload, BleAdv.matterServiceData, BleAdv.AD_TYPE_SERVICE_DATA_UUID16,
+      = .ok (some (servicePayload ⟨[a, b, c, d, e, f, g, i], ad⟩)) := by
+    simp [encode, flagsRecord, serviceRecord, servicePayload, BleAdv.matterServiceData, BleAdv.splitAt, BleAdv.AD_TYPE_SERVICE_DATA_UUID16,
       BleAdv.MATTER_UUID16_LO, BleAdv.MATTER_UUID16_HI]
   simp only [parseAdv, hm, hs]
 
@@ -54,9 +54,11 @@ theorem parseServiceData_np (p : List Nat) : NoPanic (parseServiceData p) := by
 
 theorem parseAdv_np (adv : List Nat) : NoPanic (parseAdv adv) := by
   unfold parseAdv
-  split
-  · exact NoPanic.ok _
-  · exact parseServiceData_np _
+  obtain ⟨r, h⟩ := BleAdv.matterServiceData_ok adv
+  rw [h]
+  cases r with
+  | none => exact NoPanic.ok _
+  | some d => exact parseServiceData_np _
 
 /-! ## refusal clauses -/
 
@@ -77,7 +79,7 @@ theorem parse_rejects_opcode (op : Nat) (rest : List Nat) (h : op ≠ OPCODE_NET
       rw [parseServiceData_long, if_neg h]
 
 /-- an advertisement without a Matter (UUID16 0xFFF6) service-data structure is refused -/
-theorem parseAdv_rejects_no_matter (adv : List Nat) (h : BleAdv.matterServiceData (adv.length + 1) adv = none) :
+theorem parseAdv_rejects_no_matter (adv : List Nat) (h : BleAdv.matterServiceData (adv.length + 1) adv = .ok none) :
     parseAdv adv = .ok none := by
   simp only [parseAdv, h]
 
